@@ -64,7 +64,7 @@ class C18(InvProp):
             yield GI2.scale_inventory(rr, tier, kind=rr.choice(['long_names', 'deep_dirs']))
         N = 200 if tier == "quick" else 5000
         segs = ["g", "h", "_u", "_w", "g.x", "a-b", "k_1"]
-        names = ["n", "m", "a.b", "c.d.e", "_n", "x-1", "init"]
+        names = ["n", "m", "a.b", "c.d.e", "_n", "x-1", "init", "a..h", ".h", "x..y.z", "t."]
         for i in range(N):
             r = Rng(seed, "C18", i)
             paths = set()
